@@ -344,7 +344,7 @@ pub struct ConsumerPlan {
     pub fin: Fin,
     pub single: bool,
     /// position among `ops` at which the consumer calls add_stream and hands the new stream to a
-    /// child thread that drains it (only used when the consumer is the sole handle of its stream)
+    /// child thread that drains it
     pub fork: Option<(u8, DrainHow)>,
 }
 
@@ -506,7 +506,7 @@ pub fn traffic_plan(q: BoxedStrategy<QCfg>, p: TrafficParams, sched_len: usize) 
             .prop_map(|(q, prefill, producers, mut streams, sched, weak_cas)| {
                 // thread budget: main + producers + consumers (+ one child per forking consumer)
                 // <= MAX_THREADS
-                let forks = streams.iter().filter(|s| s.len() == 1 && s[0].fork.is_some()).count().min(2);
+                let forks = streams.iter().flat_map(|s| s.iter()).filter(|c| c.fork.is_some()).count().min(2);
                 let mut budget = MAX_THREADS - 1 - producers.len() - forks;
                 for s in streams.iter_mut() {
                     let keep = s.len().min(budget.max(1));
@@ -586,9 +586,9 @@ pub fn build_traffic(plan: &TrafficPlan, opts: &ExecOpts) -> Scenario {
             main.push(Op::Spawn { prog: prog_no, tx: vec![], rx: vec![sel(idx, rx_table.len())] });
             rx_table.remove(idx);
             let mut ops = Vec::new();
-            // a consumer that is the only handle of its (broadcast) stream may add a stream
+            // a consumer of a broadcast stream (sole handle or one of several) may add a stream
             // during traffic; at most two such forks per scenario
-            let do_fork = cons.len() == 1 && q.flavour == Flavour::Broadcast && forks_left > 0 && cp.fork.is_some();
+            let do_fork = q.flavour == Flavour::Broadcast && forks_left > 0 && cp.fork.is_some();
             let fork_at = cp.fork.map(|f| (f.0 as usize).min(cp.ops.len())).unwrap_or(0);
             if cp.single && !do_fork {
                 ops.push(Op::IntoSingle { rx: 0 });
@@ -694,8 +694,9 @@ pub fn addstream_plan() -> BoxedStrategy<AddStreamPlan> {
         q,
         0u8..=4,
         vec(1u8..=7, 1..=2),
-        // a multi-handle parent with receiving siblings is the territory of known finding D8: capped
-        prop_oneof![6 => Just(1u8), 1 => Just(2u8), 1 => Just(3u8)],
+        // number of handles on the parent stream: with 2-3 the siblings receive while the adder
+        // copies the parent's position (the situation of defect D8, repaired in /repo 06c705c)
+        prop_oneof![4 => Just(1u8), 2 => Just(2u8), 2 => Just(3u8)],
         0u8..4,
         any::<bool>(),
         vec(0u8..3, 2),
